@@ -64,6 +64,15 @@ Additions for scoring/main.py (select_next_plate, score_chunk, ChunkedScoresHold
   `a[i] = v`, a : list   with cfg["index_error"] = tag: list_set, IndexError (Err tag) when i is outside -len..len-1
   cfg["coerce"]       [(from type, to type, template over {x})]: an upcast applied where the `to` type is needed
                       (subclass used as its base class), also pointwise under `list` and `dict`
+Additions for retrospective.py / data.py (reveal_plates, mask_screen, unmask_screen, Screen.set_observed, Screen.__init__):
+  cfg["kwcalls"]      {callee name: (Gallina template over the parameter names, result type, [(parameter, type, default)])}:
+                      a call `F(k1=e1, ..., kn=en)` of a declared callee with keyword arguments only.  Every keyword must be a
+                      declared parameter; a declared parameter the call does not pass takes its declared default (a Gallina
+                      term; default None = required, its absence is refused); a passed argument is coerced to the declared type
+                      (an `opt T` parameter receives `Some e`).  Arguments are evaluated in source order.  Positional arguments,
+                      `*args`, `**kwargs` and undeclared keywords are refused.  A template starting with `!` denotes a
+                      `result T` (the call may raise).  WHICH arguments a call site passes is thus read from the source; the
+                      template only says what the callee does with a complete argument list.
 """
 import ast
 
@@ -167,6 +176,9 @@ class Tr:
                             {h: parse_type(t) for h, t in (x[4] if len(x) > 4 else {}).items()})
                            for x in cfg.get("stmt_prims", [])]
         self.globals = set(rn(g) for g in cfg.get("globals", []))
+        # keyword-argument calls: {callee: (template, result type, [(parameter, type, default term or None)])}
+        self.kwcalls = {rn(f): (t, parse_type(ty), [(p, parse_type(pt), d) for p, pt, d in ps])
+                        for f, (t, ty, ps) in cfg.get("kwcalls", {}).items()}
         # the exception monad: by default Lib/Sexp.result with integer tags; a configuration may name another one
         # (type constructor, bind notation keyword, unit, fold, checked unwrap) whose errors carry data
         m = dict(type="result", bind="dor", ok="Ok", fold="res_fold", unwrap="unwrap")
@@ -235,6 +247,8 @@ class Tr:
                     a, at = self.expr(kw.value, env, hoist)
                     args[kw.arg] = self.need(a, at, argtys[kw.arg], hoist) if kw.arg in argtys else a
             return "(" + tmpl.format(**args) + ")", ty
+        if isinstance(e, ast.Call) and isinstance(e.func, ast.Name) and e.func.id in self.kwcalls:
+            return self.kwcall(e, env, hoist)
         if isinstance(e, ast.Attribute) and e.attr in self.fields:
             owner, fty, getter, _ = self.fields[e.attr]
             o, ot = self.expr(e.value, env, hoist)
@@ -336,6 +350,35 @@ class Tr:
                 raise Unsupported("chained comparison: " + ast.unparse(e))
             return self.compare(e.left, e.ops[0], e.comparators[0], env, hoist), ("bool",)
         raise Unsupported("expression: " + ast.unparse(e))
+
+    def kwcall(self, e, env, hoist):
+        """cfg["kwcalls"]: F(k1=e1, ..., kn=en) -> the callee's template over its full parameter list; a parameter the call
+        site does not pass takes its declared default"""
+        tmpl, ty, params = self.kwcalls[e.func.id]
+        if e.args:
+            raise Unsupported("positional argument in a keyword call: " + ast.unparse(e)[:80])
+        declared = {p: pt for p, pt, _ in params}
+        given = {}
+        for kw in e.keywords:      # source order = Python's evaluation order
+            if kw.arg is None:
+                raise Unsupported("**kwargs in a keyword call: " + ast.unparse(e)[:80])
+            if kw.arg not in declared or kw.arg in given:
+                raise Unsupported("keyword %s is not a declared parameter of %s" % (kw.arg, e.func.id))
+            a, at = self.expr(kw.value, env, hoist)
+            given[kw.arg] = self.need(a, at, declared[kw.arg], hoist)
+        args = {}
+        for p, pt, default in params:
+            if p in given:
+                args[p] = given[p]
+            elif default is None:
+                raise Unsupported("required argument %s of %s is not passed" % (p, e.func.id))
+            else:
+                args[p] = default
+        if tmpl.startswith("!"):
+            n = self.new("r")
+            hoist.append((n, tmpl[1:].format(**args)))
+            return n, ty
+        return "(" + tmpl.format(**args) + ")", ty
 
     def need(self, term, have, want, hoist):
         """coerce a term of type [have] to type [want]"""
